@@ -478,7 +478,7 @@ def classify(f):
     """stable key of a failure for the known-findings file (None = not a listed finding)"""
     if f.get('key'):
         return f['key']
-    if f.get('kind') != 'tree':
+    if f.get('kind') not in ('tree', 'write'):
         return None
     msg = f['msg']
     kept = _complex_kept_leaves(f['tree'])
